@@ -52,6 +52,22 @@ Theorem C15_reads_independent :
 Proof. exact reads_independent. Qed.
 Print Assumptions C15_reads_independent.
 
+(* BaseResponse.copy: afterwards set_cookie / delete_cookie on the copy leave the
+   cookies of the original exactly as they were and vice versa, and at the moment of
+   the copy the copy holds the same morsels (key, value, coded value, delete
+   attributes) as the original, as new objects (in sorted key order). *)
+Theorem C15_copy_independent :
+  forall (val : Type) (mac : list N -> list N -> list N) (dumps : str -> @cval val -> list N)
+         (st : rpair) (o : @rop val),
+    let st' := fst (fst (rstep val mac dumps st o)) in
+    match o with
+    | RSet true _ _ _ | RDel true _ => fst st' = fst st
+    | RSet false _ _ _ | RDel false _ => snd st' = snd st
+    | RCopy => fst st' = fst st /\ exists c, snd st' = Some c /\ Permutation.Permutation c (fst st)
+    end.
+Proof. exact copy_independent. Qed.
+Print Assumptions C15_copy_independent.
+
 (* Any signature part that is not exactly base64(mac(key, msg)) — a substituted,
    deleted, inserted or truncated byte, another cookie's signature — is rejected
    and nothing is unpickled.  No assumption on the MAC.  (A '?' put into the
